@@ -19,7 +19,8 @@ ID = "C11"
 RULE = ("exhaustive: is_single_peaked_axis on every axis for every profile of 1-2 distinct complete weak orders over "
         "m <= 3 alternatives (thorough: also every single weak order and every pair over m = 4); PQ-tree and ILP on every "
         "profile of <= 3 distinct weak orders over m <= 3; near-axis profiles (planted + one perturbed vote, m 5-7, n 3-5, "
-        "strict and weak) for the PQ-tree against the reference; sampled profiles of "
+        "strict and weak) for the PQ-tree against the reference; many-ballot profiles (10-22 distinct ballots, m 5-7, 54-140 "
+        "matrix rows) in which two alternatives are separated only by the first 1-3 stored ballots; sampled profiles of "
         "1-4 weak orders for m = 4 on all 24 axes, random m <= 6 on sampled axes; PQ-tree verdict for all of these "
         "profiles and random m <= 5 (thorough 6), ILP on a budgeted subset; planted single-plateaued profiles, ties at "
         "the top, complete indifference; type gate on soi/toi/cat. non-trivial = >= 3 alternatives and >= 2 distinct orders")
@@ -244,6 +245,75 @@ def generate(tier, seed):
         prof = distinct_semantic(votes)
         add_profile(rand_perm(rng, alts), prof, None, pq=True, ilp=(i % 40 == 0), tag="near-axis")
 
+    # ---- MANY ballots (10-20 distinct ballots, m = 5..7: 54-140 rows of the consecutive-ones matrix): two alternatives
+    #      p, q are tied (weak) or adjacent and never separated (strict) in all but the first 1-3 stored ballots, and those
+    #      first ballots decide single-peakedness (planted on the hidden axis: SP; planted on the axis with q moved away
+    #      from p, or random: mostly not SP).  PQ-tree (fast) against the reference; both verdicts.
+    nmany = 1200 if not thorough else 8000
+    for i in range(nmany):
+        m = rng.randint(5, 7)
+        alts = rng.sample(range(0, rng.choice([m, 12, 1000])), m)
+        axis = rand_perm(rng, alts)
+        j = rng.randrange(m - 1)
+        pa, qa = axis[j], axis[j + 1]
+        contracted = [a for a in axis if a != qa]
+        weak = (i % 3 != 0)
+        target_rows = rng.choice([56, 60, 66, 70, 80, 100, 130])
+        later, rows, guard = [], 0, 0
+        while (rows < target_rows or len(later) < 9) and len(later) < 19 and guard < 400:
+            guard += 1
+            o = planted_weak(rng, contracted, p_big=(0.3 if weak else 0.0))
+            if weak:
+                o = [cl + [qa] if pa in cl else cl for cl in o]            # p and q always tied
+            else:
+                flat = [a for cl in o for a in cl] if all(len(cl) == 1 for cl in o) else \
+                    [a for cl in strictify_sp(rng, o, contracted) for a in cl]
+                k = flat.index(pa)                    # q right below p (peak at / left of p) or right above p: never separated
+                flat.insert(k + (1 if contracted.index(flat[0]) <= contracted.index(pa) else 0), qa)
+                o = [[a] for a in flat]
+            if canon_classes(o) not in [canon_classes(q_) for q_ in later]:
+                later.append(o)
+                rows += len(o)
+        nfirst = rng.randint(1, 3)
+        kind = i % 4
+        if kind == 0:            # consistent with the hidden axis: single-peaked
+            ax1 = axis
+        else:                    # q moved away from p
+            ax1 = [a for a in axis if a != qa]
+            pos = [t for t in range(len(ax1) + 1) if abs(t - ax1.index(pa)) > 1 or t < ax1.index(pa)]
+            pos = [t for t in pos if t not in (ax1.index(pa), ax1.index(pa) + 1)] or [0]
+            ax1.insert(rng.choice(pos), qa)
+        first = []
+        for _ in range(nfirst):
+            if kind == 3 and rng.random() < 0.5:
+                o = rand_weak_order(rng, alts, p_tie=(0.3 if weak else 0.0))
+            else:
+                o = planted_weak(rng, ax1, p_big=(0.15 if weak else 0.0))
+                if not weak:
+                    o = [[a] for cl in (o if all(len(cl) == 1 for cl in o) else strictify_sp(rng, o, ax1)) for a in cl]
+            first.append(o)
+        prof = distinct_semantic(first + later)
+        add_profile(rand_perm(rng, alts), prof, None, pq=True, ilp=False, tag="many-ballots")
+
+    # ---- near-axis strict profiles with many ballots (m = 7, 9-14 ballots: 63-98 rows)
+    for i in range(300 if not thorough else 3000):
+        m = 7
+        alts = rng.sample(range(0, 50), m)
+        axis = rand_perm(rng, alts)
+        votes = []
+        for _ in range(rng.randint(9, 14)):
+            o = planted_weak(rng, axis, p_big=0.0)
+            o = [[a] for c in o for a in c] if all(len(c) == 1 for c in o) else strictify_sp(rng, o, axis)
+            votes.append(o)
+        if i % 2:
+            k = rng.randrange(len(votes))
+            flat = [c[0] for c in votes[k]]
+            jj = rng.randrange(m - 1)
+            flat[jj], flat[jj + 1] = flat[jj + 1], flat[jj]
+            votes[k] = [[a] for a in flat]
+        rng.shuffle(votes)
+        add_profile(rand_perm(rng, alts), distinct_semantic(votes), None, pq=True, ilp=False, tag="many-strict")
+
     # ---- type gate (soi, toi with complete and incomplete orders; a CategoricalInstance)
     for i in range(24 if not thorough else 120):
         m = rng.randint(2, 5)
@@ -396,6 +466,12 @@ def stats(c, r, m):
         for k in ("pq", "ilp", "elo"):
             if isinstance(r, dict) and k in r:
                 lab.append("%s %s" % (k, v))
+        nrows = sum(len(o) for o in pl[2])
+        if isinstance(r, dict) and "pq" in r:
+            lab.append("pq_tree matrix rows %s: %s" % ("<=53" if nrows <= 53 else ("54-64" if nrows <= 64 else ">64"), v))
+        if c["tags"].get("kind") in ("many-ballots", "many-strict"):
+            lab.append("%s %s %s" % (c["tags"]["kind"], "strict" if pl[0] == 0 else "weak", v))
+            lab.append("%s ballots=%s" % (c["tags"]["kind"], len(pl[2]) if len(pl[2]) < 10 else ("10-14" if len(pl[2]) < 15 else "15-22")))
         if c["tags"].get("kind") == "near-axis":
             lab.append("near-axis %s %s" % ("strict" if pl[0] == 0 else "weak", v))
             lab.append("near-axis m=%d n=%d" % (len(pl[1]), len(pl[2])))
